@@ -96,6 +96,13 @@ PLANS = {
         "quick": [ex("ctx3", "ctx", 3, 3), rec("ctxR", "ctx", 1500, 8, 8)],
         "thorough": [ex("ctx3", "ctx", 3, 4), rec("ctxR", "ctx", 30000, 10, 10)],
     },
+    "C16": {
+        "quick": [ex("nst3", "nst", 3, 4, alphabet=["a", "b", "(", ")"], kinds=["tree", "treem"]),
+                  rec("nstR", "nst", 2000, 8, 10, kinds=["tree", "treem"])],
+        "thorough": [ex("nst3", "nst", 3, 6, alphabet=["a", "b", "(", ")"], kinds=["tree", "treem"]),
+                     ex("nst4", "nst", 4, 4, alphabet=["a", "(", ")"], kinds=["treem"], modes=["E"]),
+                     rec("nstR", "nst", 30000, 10, 14, kinds=["tree", "treem"])],
+    },
     "C17": {
         "quick": [ex("lbl3", "lbl", 3, 3), ex("lblT", "lblT", 1, 4, alphabet=["a", "b", "c"]), rec("lblR", "lbl", 1500, 8, 8)],
         "thorough": [ex("lbl3", "lbl", 3, 4), ex("lblT", "lblT", 1, 5, alphabet=["a", "b", "c"]), rec("lblR", "lbl", 30000, 10, 10)],
